@@ -1,9 +1,11 @@
 #!/bin/bash
 # Build the framework once, offline, from files on disk only.
 set -eu
-cd /verif
+cd "$(dirname "$0")"
+V="$(pwd)"
+export ZIPMC_VERIF_ROOT="$V"
 export CARGO_NET_OFFLINE=true
-export CARGO_TARGET_DIR=/verif/.target
+export CARGO_TARGET_DIR="$V/.target"
 export RUSTFLAGS="--cfg zip_rs_zip_verif"
 mkdir -p evidence .target
 (cd engine && cargo build --release --offline)
